@@ -48,7 +48,7 @@ MODELLED = {
     "anml_writer.py": ["_get_anml_name", "_get_anml_valid_name", "_is_valid_anml_name"],
 }
 MODELLED_SHA = {
-    "pddl_writer.py:_get_mangled_name": "5df05a795d87cec0",
+    "pddl_writer.py:_get_mangled_name": "f09b9252b96dc516",
     "pddl_writer.py:get_item_named": "00222aee056bfe68",
     "pddl_writer.py:get_pddl_name": "d23fe176cd3776f0",
     "pddl_writer.py:_get_pddl_name": "0c410c1c4b1116dc",
@@ -629,7 +629,7 @@ def pddl_case(rng, b, T, mode, stats):
     for n in set(b.pool + pn + [r for _, r in calls]):
         if p.has_name(n) != (n in pn):
             extra_bad.append("has_name(%r) disagrees with the element names" % n)
-    c = {"kws": kws, "hier": bool(w.problem_kind.has_hierarchical_typing()), "pnames": pn,
+    c = {"kws": kws, "hier": bool(w.problem_kind.has_hierarchical_typing() or len(p.user_types) > 1), "pnames": pn,
          "reqs": [ids(i) for i, _ in calls], "names": [r for _, r in calls],
          "otn": [(ids(i), n) for i, n in w.otn_renamings.items()],
          "nto": [(n, ids(i)) for n, i in w.nto_renamings.items()], "item_q": [], "name_q": [], "direct": []}
@@ -761,7 +761,7 @@ def run(ctx):
     rng = ctx.rng
     allk = sorted(set(sum((T[t] for t in T if t.endswith("PDDL_KEYWORDS") or t == "PDDL3_KEYWORDS"), [])))
     T["_subsets"] = [sorted(rng.sample(allk, rng.randint(0, 25))) for _ in range(3)] + [[], allk, sorted(T["GENERAL_PDDL_KEYWORDS"])]
-    n_problems = 120 if ctx.quick else 1800
+    n_problems = 100 if ctx.quick else 1800
     cases, raw, oracle_bad = [], [], []
     nontrivial = set()
     for k in range(n_problems):
